@@ -141,6 +141,7 @@ def doc_param_verdict(p):
 
 class C16(PropBase):
     id = 'C16'
+    rx_only_gaps = 0.1
     partial_passes = 0.25
     rx_only_passes = 0.4
     lean_modules = ['Isotp.Props.C16']
